@@ -1,5 +1,6 @@
 """Command pipeline tools."""
 
+import codecs
 import errno
 import io
 import os
@@ -506,6 +507,12 @@ class CommandPipeline:
         nl = b"\n"
         cr = b"\r"
         crnl = b"\r\n"
+        # ``iterraw`` hands over whatever the polling loop happened to read,
+        # which can end in the middle of a multi-byte character or between
+        # the CR and the LF of a CRLF. Decode incrementally and decide about
+        # a trailing CR only when the next piece (or the end) arrives.
+        decoder = codecs.getincrementaldecoder(enc)(errors=err)
+        held_cr = False
         for line in self.iterraw():
             # write to stdout line ASAP, if needed
             if stream:
@@ -527,15 +534,40 @@ class CommandPipeline:
             # save the raw bytes
             raw_out_lines.append(line)
             # do some munging of the line before we return it
+            if held_cr:
+                held_cr = False
+                if line.startswith(nl):
+                    # second half of a CRLF whose CR ended the previous piece
+                    line = line[1:]
+                if lines:
+                    lines[-1] += "\n"
+                else:
+                    lines.append("\n")
+                yield "\n"
+                if not line:
+                    continue
             if line.endswith(crnl):
                 line = line[:-2] + nl
             elif line.endswith(cr):
-                line = line[:-1] + nl
-            line = line.decode(encoding=enc, errors=err)
+                line = line[:-1]
+                held_cr = True
+            line = decoder.decode(line)
             line = RE_HIDE_ESCAPE.sub("", line)
+            if not line:
+                continue
             # tee it up!
             lines.append(line)
             yield line
+        tail = decoder.decode(b"", final=True)
+        if tail:
+            lines.append(tail)
+            yield tail
+        if held_cr:
+            if lines:
+                lines[-1] += "\n"
+            else:
+                lines.append("\n")
+            yield "\n"
 
         # using join is more efficient than concatenating in a loop
         self._raw_output = b"".join(raw_out_lines)
